@@ -408,7 +408,11 @@ def run(ctx):
                 "each run in a forked child (mj_makeData + mj_step x2) behind guard pages; sizes = geometric grid from 0 to "
                 "1.15 x need plus bisection of every boundary between outcome classes down to one byte (thorough: plus every "
                 "8 bytes for three small models, plus an ASan/UBSan build); distinct by (model, narena)")
+    import time
+    tm = {}
+    t0 = time.time()
     ctx.lean_props(THEOREMS)
+    tm["lean_props(incl. waiting for the shared lake lock)"] = round(time.time() - t0, 1)
 
     # ---- T1: guard table regenerated from the source vs the table of the Lean programs
     os.environ.setdefault("VERIF_REPO", common.REPO)
@@ -438,6 +442,7 @@ def run(ctx):
     variant = variant or "asis"
 
     # ---- implementation side
+    t0 = time.time()
     impl = ctx.harness("harness/c/c20_exhaust.c", "c20_exhaust", deps=["harness/mjbuild.h"])
     if not (drv and impl):
         return
@@ -451,6 +456,8 @@ def run(ctx):
     for i in range(ngen):
         models.append(("gen%d" % i, gen_model(rng)))
 
+    tm["build"] = round(time.time() - t0, 1)
+    t0 = time.time()
     # ---- T2 + S1: unit ops, differential with the Lean interpreter, then the oracle on the implementation's output
     nunit = 0
     unit_models = models[:6] if thorough else models[:3]
@@ -479,6 +486,8 @@ def run(ctx):
         except OSError:
             pass
     ctx.extra["unit_ops"] = nunit
+    tm["unit_ops"] = round(time.time() - t0, 1)
+    t0 = time.time()
 
     # ---- S2: exhaustion sweep on real mj_step, every size in a forked child
     fails, traces, hist = [], [], {}
@@ -494,6 +503,8 @@ def run(ctx):
             for name, lines in models[:8]:
                 nsizes[name + "[asan]"] = sweep_model(ctx, sa, name + "[asan]", lines, 2, False, rng, fails, traces, hist, max_rounds=12)
             sw.nruns += sa.nruns
+    tm["sweeps"] = round(time.time() - t0, 1)
+    ctx.extra["timing_s"] = tm
     ctx.extra["sweep_children_run"] = sw.nruns
     ctx.extra["sweep_sizes_per_model"] = nsizes
     ctx.extra["sweep_outcome_classes"] = {k: v for k, v in sorted(hist.items()) if k != "skipped-models"}
